@@ -16,10 +16,40 @@ from . import env, gen, harness, historyops, pool, run, runlevel
 from .prng import stream, subseed
 
 
-def gen_ops(rng, seed, tag, n):
+def sibling(rng, S):
+    """A closely related optimisation: same dimension, box, seed and options as S, but another
+    target / constraint / noise - what leaks keyed on D, on the bounds or on point bytes need."""
+    o = copy.deepcopy({k: v for k, v in S.items() if k not in ("pre", "between")})
+    t = rng.random()
+    if t < 0.4:
+        o["target"] = {"family": "const", "value": 1.5}
+    elif t < 0.7 and isinstance(o["target"].get("c"), list):
+        o["target"] = dict(o["target"], c=[v * 0.5 for v in o["target"]["c"]])
+    if o.get("cons") is not None and rng.random() < 0.6:
+        o["cons"] = None
+        if o.get("x0_class") in ("infeasible", "near_cons"):
+            o["x0_class"] = "on_bound"
+    if rng.random() < 0.3:
+        o["noise"] = None
+        for k in ("specify_target_noise", "uncertainty_handling", "noise_final_samples", "noise_size"):
+            o["options"].pop(k, None)
+    if rng.random() < 0.5 and o.get("x0") is not None and o.get("plb") is not None and o.get("lb") is not None:
+        # start between the plausible box and the hard bounds (another Sobol seed for the same D)
+        o["x0"] = [0.5 * (a + b) for a, b in zip(o["lb"], o["plb"])]
+        o["x0_class"] = "on_bound"
+    o["options"] = dict(o["options"])
+    o["options"]["max_fun_evals"] = min(int(o["options"].get("max_fun_evals", 40)), 40)
+    o["faults"] = []
+    return o
+
+
+def gen_ops(rng, seed, tag, n, S=None):
     ops = []
     for j in range(n):
-        k = gen._choice(rng, ["draw", "reseed", "seterr", "loglevel", "opt", "opt", "construct"])
+        k = gen._choice(rng, ["draw", "reseed", "seterr", "loglevel", "opt", "opt", "construct"] + (["sibling", "sibling"] if S is not None else []))
+        if k == "sibling":
+            ops.append(dict(op="opt", scn=sibling(rng, S)))
+            continue
         if k == "draw":
             ops.append(dict(op="draw", n=rng.randrange(1, 2000), normal=rng.randrange(0, 50)))
         elif k == "reseed":
@@ -49,8 +79,8 @@ def make_case(seed, i):
     prof = dict(name="c07", budget_kinds=["small", "small", "mid"], budget_min=14, budget_max=70, x0_w=[4, 1, 5, 0], noise_w=[4, 2, 3, 2],
                 noise_rng_global=0.6, cons_p=0.2, fam_w=[6, 2, 1, 1, 1, 1, 1], knobs=dict(noise_final_samples=0.5))
     S = gen.make_scenario(seed, prof, i)
-    pre = gen_ops(rng, seed, f"pre{i}", rng.randrange(0, 5))
-    between = gen_ops(rng, seed, f"btw{i}", rng.randrange(0, 3)) if rng.random() < 0.5 else []
+    pre = gen_ops(rng, seed, f"pre{i}", rng.randrange(0, 5), S)
+    between = gen_ops(rng, seed, f"btw{i}", rng.randrange(0, 3), S) if rng.random() < 0.5 else []
     alt_clock = dict(mode=gen._choice(rng, ["zero", "long", "rand"]), seed=rng.randrange(1, 10**6), lo=0.0, hi=50.0,
                      jumps=[dict(at_call=rng.randrange(1, 40), kind=gen._choice(rng, ["in", "post"]), delta=gen._choice(rng, [-3600.0, 86400.0, -5.0]))])
     return dict(S=S, pre=pre, between=between, alt_clock=alt_clock, index=i)
